@@ -1,5 +1,6 @@
 import Bandit.Plugins.Trojan
 import Bandit.Gen.Bidi
+import Bandit.Lines
 /-!
 # C19 — Findings do not depend on how the source text reaches bandit
 
@@ -7,7 +8,9 @@ What bandit computes from the *decoded text* (lines, comment tokens) and the *AS
 the channel by construction: `scanFile` takes exactly those three inputs (`FileInput`) and nothing
 else.  That CPython yields the same text / AST for LF vs CRLF, with or without a BOM, for a transcoded
 file with a cookie, from a file or from stdin, is runtime behaviour: it is explored by the harness on
-every run, not proved.
+every run, not proved.  One step of it *is* modelled and proved: the split of the decoded text into the lines
+`trojansource` iterates (`Bandit/Lines.lean`: the universal-newline decoder of a text-mode file, executed by the driver
+on the text the harness decodes) — the section "line ends" below.
 -/
 namespace Props.C19
 open Bandit Bandit.Plugins
@@ -126,5 +129,55 @@ theorem gen_bidi_covers_published :
 
 example : scanBidi Gen.bidiCharacters 1 ["x = 1".toList, ['#', ' ', Char.ofNat 0x202E, 'a']] = some (2, 3, Char.ofNat 0x202E) := by
   decide
+
+/-! ## line ends
+
+The lines B613 iterates are `uniLines text` (`io.TextIOWrapper(newline=None).readlines()`); the driver computes them from the decoded text. -/
+
+/-- **LF, CRLF and CR files have the same lines** (for a text that does not already contain `\r`) -/
+theorem lines_newline_style_independent (s : LStr) (h : '\r' ∉ s) :
+    uniLines (toCRLF s) = uniLines s ∧ uniLines (toCR s) = uniLines s :=
+  ⟨uniLines_toCRLF s h, uniLines_toCR s h⟩
+
+/-- … hence B613 decides the same and reports the same line and column for all three -/
+theorem b613_newline_style_independent (table : List Char) (e : Env) (s : LStr) (h : '\r' ∉ s) :
+    b613 table { e with lines := uniLines (toCRLF s) } = b613 table { e with lines := uniLines s } ∧
+    b613 table { e with lines := uniLines (toCR s) } = b613 table { e with lines := uniLines s } := by
+  rw [uniLines_toCRLF s h, uniLines_toCR s h]; exact ⟨rfl, rfl⟩
+
+/-- **nothing of the text escapes the scan**: the lines concatenate to the (newline-translated) text, no line holds a `\r`, `\n` only ends lines,
+and line `i` starts right after the `i`-th line end — the line numbering of the parser -/
+theorem lines_partition_text (s : LStr) :
+    (uniLines s).flatten = translate s ∧
+    (∀ l ∈ uniLines s, l ≠ [] ∧ '\n' ∉ l.dropLast ∧ '\r' ∉ l) ∧
+    ∀ i, i < (uniLines s).length → ((uniLines s).take i).flatten.count '\n' = i :=
+  ⟨uniLines_flatten s, uniLines_shape s, uniLines_count s⟩
+
+/-- **a listed character anywhere in the decoded text is reported**, whatever the line ends of the file are -/
+theorem bidi_anywhere_in_text_reported (table : List Char) (e : Env) (s : LStr) (ch : Char)
+    (hch : ch ∈ table) (hs : ch ∈ s) (h1 : ch ≠ '\r') (h2 : ch ≠ '\n') :
+    ∃ r, b613 table { e with lines := uniLines s } = .ok (some r) := by
+  rw [b613_iff]
+  obtain ⟨l, hl, hm⟩ := mem_uniLines s ch hs h1 h2
+  exact ⟨l, hl, ch, hch, hm⟩
+
+/-- … and a text without listed characters is silent: line splitting invents nothing -/
+theorem no_bidi_no_report (table : List Char) (e : Env) (s : LStr) (h : ∀ ch ∈ table, ch ∉ s) (hn : '\n' ∉ table) :
+    b613 table { e with lines := uniLines s } = .ok none := by
+  have hnot : ¬ ∃ r, b613 table { e with lines := uniLines s } = .ok (some r) := by
+    rw [b613_iff]
+    rintro ⟨l, hl, ch, hch, hm⟩
+    have hin : ch ∈ translate s := by rw [← uniLines_flatten]; exact List.mem_flatten.2 ⟨l, hl, hm⟩
+    exact mem_translate_orig s ch hin (fun e => hn (e ▸ hch)) (h ch hch)
+  obtain ⟨r, hr⟩ := b613_total table { e with lines := uniLines s }
+  cases r with
+  | none => exact hr
+  | some r => exact absurd ⟨r, hr⟩ hnot
+
+/-- the generated table holds no line-end character, so the side conditions above are met by every listed character -/
+theorem gen_bidi_no_line_ends : '\r' ∉ Gen.bidiCharacters ∧ '\n' ∉ Gen.bidiCharacters := by decide
+
+example : uniLines "a\r\nb\rc\n\x0cd".toList = ["a\n".toList, "b\n".toList, "c\n".toList, "\x0cd".toList] := by decide
+example : uniLines (toCRLF "x = 1\n# y\n".toList) = ["x = 1\n".toList, "# y\n".toList] := by decide
 
 end Props.C19
